@@ -160,6 +160,8 @@ ScanEqualsTruth(s, w, utxo, del, h) ==
   /\ \A o \in T : \E k \in rec(o) :
         /\ O[k].st \in (IF del THEN {"Unspent"} ELSE {"Unspent", "Locked"}) \/ waits(k)
         /\ O[k].cb = s.reg[o].cb
+  \* ... and no record of such an output is left saying Spent (a wrongly spent record is repaired, not shadowed by a second one)
+  /\ \A o \in T : \A k \in rec(o) : O[k].st # "Spent"
   /\ \A k \in DOMAIN O : (O[k].st = "Unspent" /\ O[k].acct = s.w[w].active) => OutId(s.w[w].seed, k) \in utxo
                                                                               \/ \E o \in T : k \in rec(o)
   /\ del => \A k \in DOMAIN O : O[k].st = "Unconfirmed" => (waits(k) /\ \E o \in T : k \in rec(o))
